@@ -128,6 +128,11 @@ var textOps = []struct {
 	// a list of segments that every goroutine passes on as it is: the callee only reads what it is handed
 	{"QuoteIdent(shared list)", func(s string) string {
 		segs := sharedSegments[len(s)%len(sharedSegments)]
+		for _, g := range segs {
+			if len(g) > 64 {
+				return "the shared list has been written to: a segment is " + fmt.Sprint(len(g)) + " bytes long"
+			}
+		}
 		return influxql.QuoteIdent(segs...) + " <- " + strings.Join(segs, "\x00")
 	}},
 	{"QuoteString", func(s string) string { return influxql.QuoteString(s) }},
@@ -320,6 +325,19 @@ func main() {
 	iters := flag.Int("iters", 300, "operations per goroutine")
 	control := flag.Bool("control", false, "positive control: call SetTimeRange (a mutator) on the shared statements too")
 	flag.Parse()
+	// watchdog: a workload whose memory keeps growing (an input that is written to and grows with every call) is ended
+	// with a report instead of taking the machine down
+	go func() {
+		var m runtime.MemStats
+		for {
+			time.Sleep(100 * time.Millisecond)
+			runtime.ReadMemStats(&m)
+			if m.HeapAlloc > 1<<30 {
+				fmt.Fprintln(os.Stderr, "the workload's heap passed 1 GB: some result or shared input grows with every call")
+				os.Exit(3)
+			}
+		}
+	}()
 	var texts []string
 	f, err := os.Open(*corpus)
 	if err != nil {
